@@ -229,6 +229,13 @@ func vfInstallGlobals() {
 			c.writeLag = w.proxyWriteLag
 			return c, nil
 		}
+		verifListenFn = func(network, addr string) (net.Listener, error) {
+			w := vfCurWorld.Load()
+			if w == nil {
+				return nil, errVFRefused
+			}
+			return w.net.Listen(addr), nil
+		}
 		verifPointFn = func(name string, args ...any) {
 			if s := vfCurSched.Load(); s != nil {
 				s.point(name, args...)
@@ -280,7 +287,7 @@ func (w *vfWorld) close() {
 				return nil
 			})
 			for _, n := range names {
-				r.RemoveService(n)
+				vfRemove(r, n)
 			}
 		}()
 	}
@@ -295,6 +302,9 @@ func (w *vfWorld) close() {
 	w.mu.Unlock()
 	for _, f := range fronts {
 		f.srv.Close()
+		if f.tlsSrv != nil {
+			f.tlsSrv.Close()
+		}
 	}
 	w.net.CloseAll()
 	w.probeTransport.CloseIdleConnections()
